@@ -357,7 +357,66 @@ func argFor(t reflect.Type, method string) reflect.Value {
 	return v // zero hash / address, "", nil pointer, nil slice, nil map, nil interface ...
 }
 
+var hashType = reflect.TypeOf(common.Hash{})
+
+// known: hashes the facade itself returned in healthy states (exit roots, L1 info roots, global exit roots ...). A query that takes a
+// hash is asked with the zero hash AND with each of them: a facade that remembers an earlier successful lookup must not answer it
+// from that memory while it is halted.
+type known struct{ hs []common.Hash }
+
+func (k *known) add(h common.Hash) {
+	if h == (common.Hash{}) || len(k.hs) >= 6 {
+		return
+	}
+	for _, x := range k.hs {
+		if x == h {
+			return
+		}
+	}
+	k.hs = append(k.hs, h)
+}
+
+func (k *known) harvest(v reflect.Value, depth int) {
+	if depth > 3 || !v.IsValid() {
+		return
+	}
+	if v.Type() == hashType {
+		k.add(v.Interface().(common.Hash))
+		return
+	}
+	switch v.Kind() {
+	case reflect.Ptr, reflect.Interface:
+		if !v.IsNil() {
+			k.harvest(v.Elem(), depth+1)
+		}
+	case reflect.Struct:
+		for i := 0; i < v.NumField(); i++ {
+			if v.Type().Field(i).IsExported() {
+				k.harvest(v.Field(i), depth+1)
+			}
+		}
+	}
+}
+
+func takesHash(recv reflect.Value, name string) bool {
+	m := recv.MethodByName(name)
+	if !m.IsValid() {
+		return false
+	}
+	for i := 0; i < m.Type().NumIn(); i++ {
+		if m.Type().In(i) == hashType {
+			return true
+		}
+	}
+	return false
+}
+
 func callMethod(recv reflect.Value, name string) (string, string) {
+	return callMethodWith(recv, name, nil, nil)
+}
+
+// callMethodWith: hash parameters take *h when h is not nil; results of a successful call are harvested into k when k is not nil
+func callMethodWith(recv reflect.Value, name string, h *common.Hash, k *known) (string, string) {
 	m := recv.MethodByName(name)
 	if !m.IsValid() {
 		return "other_error", "no such method"
@@ -366,6 +425,9 @@ func callMethod(recv reflect.Value, name string) (string, string) {
 	args := make([]reflect.Value, mt.NumIn())
 	for i := range args {
 		args[i] = argFor(mt.In(i), name)
+		if h != nil && mt.In(i) == hashType {
+			args[i] = reflect.ValueOf(*h)
+		}
 	}
 	type res struct{ class, detail string }
 	done := make(chan res, 1)
@@ -388,6 +450,11 @@ func callMethod(recv reflect.Value, name string) (string, string) {
 		for i := len(outs) - 1; i >= 0; i-- {
 			if mt.Out(i) == errType {
 				if outs[i].IsNil() {
+					if k != nil && name != "Start" {
+						for j := range outs {
+							k.harvest(outs[j], 0)
+						}
+					}
 					done <- res{"ok", ""}
 				} else {
 					c, d := classify(outs[i].Interface().(error))
@@ -428,6 +495,7 @@ func runScenario(syncer string, ops []Op, methods []string) ([]stepRes, error) {
 	defer s.inspect.Close()
 	defer s.close()
 	var res []stepRes
+	var kn known
 	for _, op := range ops {
 		var sr stepRes
 		switch op.K {
@@ -445,7 +513,17 @@ func runScenario(syncer string, ops []Op, methods []string) ([]stepRes, error) {
 		case "query":
 			sr.query = map[string]StepObs{}
 			for _, m := range methods {
-				c, d := callMethod(s.facade, m)
+				c, d := callMethodWith(s.facade, m, nil, &kn)
+				// the same question with every hash the facade has handed out so far: data from any of them is data
+				if takesHash(s.facade, m) {
+					for i := range kn.hs {
+						if c2, d2 := callMethodWith(s.facade, m, &kn.hs[i], nil); c2 == "ok" && c != "ok" {
+							c, d = c2, d2+" (asked with a hash the facade returned earlier)"
+						} else if c2 == "panic" {
+							c, d = c2, d2
+						}
+					}
+				}
 				sr.query[m] = StepObs{Out: c, Detail: d}
 			}
 		default:
